@@ -26,6 +26,19 @@ def heartbeat_follow_through(tier):
     c17.run_sessions(sessions, tdir, par=8)
     files = sorted(glob.glob(os.path.join(tdir, "c17-*.ndjson")))
     consumed, bad = vlib.validate_traces("HeartbeatTrace", "HeartbeatTrace.cfg", files, timeout=600, xmx="1g")
+    # (same rule as C17: a session that only missed an upper timing bound is measured again, alone)
+    for attempt in range(2):
+        upper = {"C17:gap", "C17:first", "C17:prompt"}
+        by_file = {}
+        for b in bad:
+            by_file.setdefault(b["file"], []).append(b)
+        again = [f for f, bs in by_file.items() if all(b["label"] in upper for b in bs)]
+        if not again:
+            break
+        ids = {int(os.path.basename(f).split("-")[1]) for f in again}
+        c17.run_sessions([x for x in sessions if x["id"] in ids], tdir, par=2)
+        c2, bad2 = vlib.validate_traces("HeartbeatTrace", "HeartbeatTrace.cfg", again, timeout=600, xmx="1g")
+        bad = [b for b in bad if b["file"] not in again] + bad2
     return len(sessions), bad, consumed
 
 
